@@ -493,10 +493,15 @@ def generate(tier, seed):
             if tier == "quick" and version == 1 and not name.startswith(("int", "text", "float", "tuple2", "dict1")):
                 continue
             obs.append(loads_ob(name, sh, version, tier))
+    # unit obligations on private helpers: generated only while the helpers exist under these names (a refactoring that
+    # renames them loses these obligations, not the check: the public-API obligations above and C14.large remain)
+    import xdis.marsh as MS
     for fn, (bits, signed) in FIELDS.items():
-        obs.append(field_writer_ob(fn, bits, signed))
+        if hasattr(getattr(MS, "_Marshaller", None), fn):
+            obs.append(field_writer_ob(fn, bits, signed))
     for fn, bits in (("r_short", 16), ("r_long", 32)):
-        obs.append(field_reader_ob(fn, bits, True))     # the string-buffer reader loads() uses; load(f)/dump(x, f) are outside the statement
+        if hasattr(MS, "_FastUnmarshaller") and hasattr(MS, "_" + fn):
+            obs.append(field_reader_ob(fn, bits, True))     # the string-buffer reader loads() uses; load(f)/dump(x, f) are outside the statement
     for n in LARGE_SIZES:
         obs.append(large_ob(n))
     return obs
